@@ -270,6 +270,9 @@ Proof. intros [|p ps] H; [congruence|]. destruct p; cbn [segs]; try destruct (se
 Lemma no_adj_tail p ps : T.no_adjacent_lit (p :: ps) = true -> T.no_adjacent_lit ps = true.
 Proof. destruct ps as [|d r]; [reflexivity|]. cbn [T.no_adjacent_lit]. intros H. apply andb_true_iff in H. apply H. Qed.
 
+Lemma no_adj_cons2 a c r : T.no_adjacent_lit (a :: c :: r) = negb (T.is_lit a && T.is_lit c) && T.no_adjacent_lit (c :: r).
+Proof. reflexivity. Qed.
+
 Definition segs_ok (ps : list T.piece) : Prop :=
   Forall seg_wf (segs ps) /\ alt (segs ps) /\
   match ps, segs ps with
@@ -289,7 +292,7 @@ Proof.
     + constructor; [|exact Ft]. cbn [seg_wf forallb]. rewrite Hw, Hn, Hf1, Hf2.
       split; [discriminate|]. split; [reflexivity|]. split; [reflexivity|].
       destruct l as [|p' l']; [congruence|]. destruct ps as [|p0 ps0]; [discriminate Es|]. rewrite Es in Hd. subst p'.
-      cbn [T.no_adjacent_lit] in Hadj |- *. apply andb_true_iff in Hadj. destruct Hadj as [Ha _].
+      rewrite no_adj_cons2 in Hadj |- *. apply andb_true_iff in Hadj. destruct Hadj as [Ha _].
       rewrite Ha, Hf3. reflexivity.
     + destruct t as [|c t']; [exact I|]. exact A.
   - split; [|split; [|reflexivity]].
@@ -320,7 +323,7 @@ Proof.
 Qed.
 
 Lemma decode_ref_nil cs : decode_chunks (CRef [] :: cs) = decode_chunks cs.
-Proof. rewrite (decode_app_ref [] [] cs). reflexivity. Qed.
+Proof. change (CRef [] :: cs) with ([] ++ CRef [] :: cs). rewrite (decode_app_ref [] [] cs). reflexivity. Qed.
 
 Lemma decode_segs : forall L, alt L -> decode_chunks (flat_map seg_chunks L) = concat (map seg_sem L).
 Proof.
